@@ -523,8 +523,37 @@ func (s *Session) Do(st Step) error {
 		}
 		s.life = "closing"
 	case "MergerExit":
-		sc.Release("merger.loop")
-		return s.pollStat(func(cs *moss.CollectionStats) bool { return cs.TotMergerEnd > 0 })
+		// With the stop channel closed and a ping still queued (the persister's
+		// "from-persister" notification), Go's select in mergerWaitForWork may pick
+		// either: the merger then runs one more idle cycle before it exits.  That
+		// choice is the implementation's (nothing observable depends on it while
+		// closing), so the driver lets such cycles run through their gates.
+		for i := 0; i < 16; i++ {
+			sc.Release("merger.loop")
+			deadline := time.Now().Add(stepTimeout)
+			for {
+				if cs, err := s.coll.Stats(); err == nil && cs.TotMergerEnd > 0 {
+					return nil
+				}
+				if sc.AwaitParked("merger.beforeSwap", 200*time.Microsecond) == nil {
+					break
+				}
+				if time.Now().After(deadline) {
+					return s.pollStat(func(cs *moss.CollectionStats) bool { return cs.TotMergerEnd > 0 })
+				}
+			}
+			sc.Release("merger.beforeSwap")
+			if s.D.Mode != "mem" {
+				if err := sc.AwaitParked("merger.beforeHandoff", stepTimeout); err != nil {
+					return err
+				}
+				sc.Release("merger.beforeHandoff")
+			}
+			if err := sc.AwaitParked("merger.loop", stepTimeout); err != nil {
+				return err
+			}
+		}
+		return fmt.Errorf("merger keeps cycling instead of exiting")
 	case "PersisterExit":
 		if s.D.Mode != "mem" {
 			if err := sc.AwaitParked("persister.beforeUpdate", stepTimeout); err != nil {
@@ -584,7 +613,9 @@ func (s *Session) pollStat(pred func(*moss.CollectionStats) bool) error {
 		}
 		time.Sleep(200 * time.Microsecond)
 	}
-	return fmt.Errorf("timeout polling collection stats")
+	cs, _ := s.coll.Stats()
+	return fmt.Errorf("timeout polling collection stats (%s; mergerEnd=%d persisterEnd=%d closeBeg=%d mergerLoop=%d waitIncomingBeg=%d waitIncomingStop=%d)", s.sched.describeLocked(),
+		cs.TotMergerEnd, cs.TotPersisterEnd, cs.TotCloseBeg, cs.TotMergerLoop, cs.TotMergerWaitIncomingBeg, cs.TotMergerWaitIncomingStop)
 }
 
 // Observe reads back everything observable and compares with the
